@@ -80,6 +80,21 @@ type Thread struct {
 
 type abortT struct{}
 
+type closedChan struct {
+	p   uintptr
+	ref any
+}
+
+//go:norace
+func (s *Sched) isClosed(p uintptr) bool {
+	for i := range s.closed {
+		if s.closed[i].p == p {
+			return true
+		}
+	}
+	return false
+}
+
 // Sched is the state of one execution.
 type Sched struct {
 	threads   []*Thread
@@ -95,7 +110,7 @@ type Sched struct {
 	timers []*VTimer
 
 	afterFuncs []*afterFunc
-	closed     map[uintptr]any // closed channels by address; the value keeps the channel alive so the address is not reused
+	closed     []closedChan // closed channels by address; ref keeps the channel alive so the address is not reused (no map: the runtime's map code is race-instrumented)
 	objIDs     map[any]int
 
 	// per-execution scratch for harnesses
